@@ -985,6 +985,12 @@ class C13(Check):
         require(fi["gridunit"][0].strip() == GRIDUNIT[case["units"]], R + "GRIDUNIT of the file",
                 [fi["gridunit"], case["units"]])
         require(eg["formatted"] == case["formatted"], R + "formatted flag", eg["formatted"])
+        if "xyz_layer_mismatch" in eg:
+            require(not eg["xyz_layer_mismatch"] and not eg["xyz_layer_error"],
+                    R + "EGrid::getXYZ_layer (one surface read from the file) differs from EGrid::getCellCorners",
+                    {"mismatch": eg["xyz_layer_mismatch"], "error": eg["xyz_layer_error"], "dims": dims})
+            if eg["xyz_layer_checked"]:
+                ctx.label("egrid:surface-by-surface-read")
         require(fi["gridhead"][1:4] == [nx, ny, nz] and eg["dimension"] == [nx, ny, nz] and eg["total_cells"] == n,
                 R + "dimensions", [fi["gridhead"][:4], eg["dimension"]])
         # activity
